@@ -120,6 +120,27 @@ def replay_once(ctx, st, res, harness, env, out, summ, r, first, procs):
     return False
 
 
+def cold_start(ctx, st, res, out):
+    """the operator-level value cases once more as the FIRST uses of the library in fresh processes, many goroutines released at the
+    same instant (harness/coldstart.go): whatever is built lazily on first use is built under concurrent callers"""
+    summ = os.path.join(ctx["work"], st["name"] + ".cold.summary.json")
+    p = subprocess.run([ctx["harness"], "coldstart", "-in", out, "-out", summ, "-prop", ctx["pid"], "-replaydir", ctx["replaydir"],
+                        "-per", str(st["cold"])], cwd=ctx["verif"], text=True, capture_output=True, env=dict(os.environ))
+    if not os.path.exists(summ):
+        res["infra"].append("cold-start pass produced no summary: " + p.stdout[-1000:] + p.stderr[-1000:])
+        return
+    s = json.load(open(summ))
+    res["evaluations"] = res.get("evaluations", 0) + s["executions"]
+    res["cold_start_executions"] = s["executions"]
+    if s["violations"]:
+        for b in re.split(r"(?m)^VIOLATION ", p.stdout)[1:]:
+            m = re.match(r"property=\S+ replay=(\S+)\n((?:  .*\n?)*)", b)
+            if m:
+                res["violations"].append(dict(replay=m.group(1), why=m.group(2).strip() + " [cold start]"))
+    if s["infra"]:
+        res["infra"] += ["harness (cold start): " + n for n in (s.get("infra_notes") or ["infra"])][:5]
+
+
 def run_mc(ctx, st):
     out = os.path.join(ctx["work"], st["name"] + ".out")
     res = dict(name=st["name"], kind="mc", exhaustive=st["exhaustive"], tlc_runs=[], violations=[], infra=[])
@@ -158,6 +179,8 @@ def run_mc(ctx, st):
         first = False
         if stop:
             return res
+    if st.get("cold"):
+        cold_start(ctx, st, res, out)
     s = res.pop("_first_summary")
     if s["cases"] == 0:
         res["infra"].append("vacuous: %s produced no case (%s)" % (st["cfg"], "\n".join(r["tail"][-15:])))
